@@ -4,7 +4,7 @@ through the real ShmWriter::new, oracles) + the generated Current_C04.v: clauses
 C02_RA_window / C03_monotone_RA_window / C04_restarted_publications_seen, whose side condition
 `safe_cfg current_cfg = true` must hold for the configuration measured from the running code."""
 import common as c
-from props import _shm, C02, C03
+from props import _shm, _wipe, C02, C03
 
 BODY = ("From CB Require Import SeqlockInv GenCyc SeqlockRA SeqlockMono SeqlockFresh.\nFrom CB.Properties Require Import C02 C03 C04.\n"
         "Theorem current_cfg_safe : safe_cfg current_cfg = true.\nProof. vm_compute. reflexivity. Qed.\n"
@@ -20,6 +20,7 @@ def run(res, proofs_ok, proofs_why):
     cfg, binary = _shm.run_property("C04", res, proofs_ok, proofs_why)
     if cfg is None:
         return
+    wipe_part(res, binary)
     ok, log = _shm.current_obligation(cfg, "C04", BODY)
     res.oblige("Current_C04.v: safe_cfg current_cfg = true for the configuration measured from the running code; clauses (a), (b), (c) instantiated with it", ok)
     res.extra["current_cfg_coq"] = _shm.coq_cfg(cfg)
@@ -38,6 +39,53 @@ def run(res, proofs_ok, proofs_why):
             res.violation({"property": "C04", "kind": "obligation",
                            "obligation": "Current_C04.v: the side condition of the clause (a)/(b) theorems does not hold for the measured configuration: " + log[-800:],
                            "measured_cfg": cfg}, found_input=False)
+
+
+def wipe_part(res, binary):
+    """death inside ShmWriter::new while the file is (re-)created: the system calls are measured
+    with strace, over a missing file and over an unusable longer one"""
+    for what, old in (("missing file", None), ("unusable 180-byte file", b"foobarbaz" * 20)):
+        info, why = _wipe.measure_wipe(binary, old)
+        res.evaluations += 1
+        name = "Current_C04w.v (%s): the file is created with truncation, the measured writes give the modelled image, every prefix of it is refused by readers" % what
+        if info is None:
+            raise c.CheckError("strace measurement of ShmWriter::new failed: " + why)
+        res.extra["wipe_syscalls(%s)" % what] = info["ops"]
+        if info["writes"] is None or not info["truncated"]:
+            res.oblige(name, False)
+            case = None
+            if not info["truncated"]:
+                # the failing state of C04_wipe_without_truncation_refuted, for the record
+                case = {"old_file_hex": (bytes([7, 0, 0, 0]) + bytes.fromhex("00024243480000000100" + "0600") + b"\xff" * 56).hex(),
+                        "death_after_write": 1,
+                        "why": ["the segment file is not truncated before it is rewritten (%s): with this old content a death after the first write leaves a file "
+                                "that readers accept although its record is the old garbage (C04_wipe_without_truncation_refuted)" % info["ops"]]}
+            res.violation({"property": "C04", "kind": "input" if case else "obligation", "case": case,
+                           "obligation": "measured system calls of ShmWriter::new over a %s: %s %s" % (what, info["ops"], why)}, found_input=bool(case))
+            return
+        body = ("From CB Require Import Layout Open LayoutProofs.\nFrom CB.Properties Require Import C04.\n"
+                "Definition observed_writes : list (list Z) := %s.\n"
+                "Theorem observed_image : concat observed_writes = wipe_image.\nProof. vm_compute. reflexivity. Qed.\n"
+                "Theorem observed_crash_states_refused : crash_states_refused observed_writes = true.\nProof. vm_compute. reflexivity. Qed.\n"
+                "Definition death_inside_new_for_the_running_code := C04_measured_writes_criterion observed_writes observed_crash_states_refused.\n"
+                "Print Assumptions death_inside_new_for_the_running_code.\n" % _wipe.coq_writes(info["writes"]))
+        ok, log = _shm.current_obligation(None, "C04w", body)
+        res.oblige(name, ok)
+        if not ok:
+            # which prefix is accepted?  (python transcription of reader_open's header conditions)
+            img = b"".join(info["writes"])
+            hit = None
+            for n in range(len(img) + 1):
+                b = img[:n]
+                if len(b) >= 16 and b[:8] == bytes.fromhex("4e5a4d4100024243") and b[12:14] != b"\0\0" and b[14:16] != b"\0\0" and int.from_bytes(b[8:12], "little") >= 72:
+                    hit = n
+                    break
+            res.violation({"property": "C04", "kind": "input" if hit is not None else "obligation",
+                           "case": {"writes_hex": [w.hex() for w in info["writes"]], "death_after_bytes": hit,
+                                    "why": ["a death after %s bytes of the re-creation leaves a file that readers accept" % hit]} if hit is not None else None,
+                           "obligation": "Current_C04w.v does not check: " + log[-600:]}, found_input=hit is not None)
+            return
+    res.trusted_base.append("strace's rendering of the system calls of the harness process (open flags, write payloads) on the segment file")
 
 
 def replay(res, path):
